@@ -157,7 +157,21 @@ def gen_cases(run):
         pal = C.palette(30)
         body = C.body_onehot(n, d["pos"] % n)
         cases.append(_mk("vef", [], F.vef_raw_file(pal, body, d["vtype"]), ("png", d["vtype"], pal, body), [], f"vef onehot {d['pos']}"))
-    return cases
+    # palette bytes whose two unused high bits are set denote the colour of their low six bits
+    for d in core.cube(run, [("vtype", [0, 1, 3]), ("hi", [0x40, 0x80, 0xC0]), ("k", [0, 21])]):
+        n = F.VEF_TYPES[d["vtype"]]["rec"] * 400
+        pal = C.palette(d["k"])
+        pal_file = [(c | d["hi"]) if i % 2 else c for i, c in enumerate(pal)]
+        body = C.body_lin(n, 3, 7)
+        cases.append(_mk("vef", [], F.vef_raw_file(pal_file, body, d["vtype"]), ("png", d["vtype"], pal, body), [], f"vef palette high bits {d['hi']:#x} type={d['vtype']}"))
+    # every header variant of the formats that can arrive on standard input, read from a (non-seekable) pipe and written to standard output
+    piped = []
+    for case in cases:
+        if case["tool"] in T.STDIN_OK and case["tool"] in T.STDOUT_OK and (case["tool"], tuple(case["opts"]), len(case["data"])) not in {(c["tool"], tuple(c["opts"]), len(c["data"])) for c in piped}:
+            piped.append(dict(case, stdin=True, label=case["label"] + " [stdin->stdout]"))
+    run.states += len(piped)
+    run.transitions += len(piped)
+    return cases + piped
 
 
 _CMP_REF = None
@@ -241,7 +255,7 @@ def work(chunk):
     scratch = work.scratch
     res = []
     for case in chunk:
-        oc = T.run_tool(case["tool"], case["data"], case["opts"], scratch)
+        oc = T.run_tool(case["tool"], case["data"], case["opts"], scratch, use_stdin=bool(case.get("stdin")), use_stdout=bool(case.get("stdin")))
         res.append(judge(case, oc))
     return res
 
